@@ -385,6 +385,11 @@ Definition fp_from_rows_accs (es C st n m ragged : Z) : list access :=
   let good := if (0 <=? ragged) && (ragged <? Z.min n m) then ragged else Z.min n m in
   map (fun i => wr B_DST (i * st * es) (C * es) es) (zrange 0 good).
 
+(* rows() of the result when the iterator's len() is n and it yields m rows of the right width:
+   the rows written (`dense.resize(written)`, repair of observation O1); before that repair: n, with the
+   rows m..n-1 never written but readable through the safe Index *)
+Definition from_rows_rows (repaired : bool) (n m : Z) : Z := if repaired then Z.min n m else n.
+
 (* `ravel`/`ravel_mut`: `from_raw_parts(self.data.as_ptr() as *mut T, self.rows() * self.stride())`:
    one region; `fill`: `ravel_mut().fill(value)` writes every element of it *)
 Definition fp_ravel (es st rows : Z) : list access := [rd B_DST 0 (rows * st * es) es].
